@@ -16,8 +16,8 @@ PLAN = dict(
         explanation="per case: (1) where the repository states an expected stdout, run_fun must reproduce it (validates the "
                     "reference semantics); (2) Rust compile_prog output = Gallina model output (canonical printing); (3) ALWAYS "
                     "the executable property on the RUST output: run_fun(checked program) vs run_core(Rust Core program) on "
-                    "every tuple whose source run ends normally within the fuel -> VIOL class=capture-under-binder | "
-                    "mistyped-goto-unbound | semantic-mismatch; mismatches of programs outside the precondition "
+                    "every tuple whose source run ends normally within the fuel -> VIOL class=capture-under-binder (known finding) | "
+                    "mistyped-goto-unbound (repaired by 126604b; a recurrence is a violation) | semantic-mismatch; mismatches of programs outside the precondition "
                     "(effects in argument positions) are SKIPped.  Theorems: fresh names for fresh_name and for the whole "
                     "translation (all term forms), structural lemmas, the capture witness refuting the unguarded statement; "
                     "semantic preservation itself rests on the correspondence + this executable check (see level_note)",
